@@ -21,14 +21,19 @@ static const char* const TEMPLATES[] = {"%a%o%a"};
 #elif FAMILY == 2    // unary constructs, enumerations, tuples, calls, logic
 static const char* const TEMPLATES[] = {"\xE2\x84\xAC(%a)", "card(%a)", "debool(%a)", "red(%a)", "bool(%a)", "pr1(%a)", "pr2(%a)", "pr3(%a)", "Pr1(%a)", "Pr1,2(%a)", "Pr2,1(%a)",
   "{%a,%a}", "(%a,%a)", "\xC2\xAC%a", "%a & %a", "%a=%a \xE2\x87\x92 %a", "F1[%a, %a]", "F1[%a]", "P1[%a]", "P1[%a] & %a=%a", "Fi1[%a](%a)", "Fi2[%a](%a)", "Fi1,2[%a,%a](S1)", "Fi1,2[%a](S1)",
-  "%a:==", "D9:==%a", "S9::=%a", "S9::=\xE2\x84\xAC(%a\xC3\x97%a)"};
+  "%a:==", "D9:==%a", "S9::=%a", "S9::=\xE2\x84\xAC(%a\xC3\x97%a)",
+  // lazily represented operands (power set, product) on either side of a set operation
+  "\xE2\x84\xAC(%a)\xE2\x88\xAA{%a}", "{%a}\xE2\x88\xAA\xE2\x84\xAC(%a)", "(%a\xC3\x97%a)\xE2\x88\xAAS1", "S1\xE2\x88\xAA(%a\xC3\x97%a)", "\xE2\x84\xAC(%a)\\{%a}", "(%a\xC3\x97%a)\xE2\x88\xA9S1", "\xE2\x84\xAC(%a)\xE2\x8A\x86S2", "(%a\xC3\x97%a)\xE2\x8A\x86S1"};
 #elif FAMILY == 3    // binders
 static const char* const TEMPLATES[] = {"\xE2\x88\x80\xCE\xBE\xE2\x88\x88%a \xCE\xBE\xE2\x88\x88%a", "\xE2\x88\x83\xCE\xBE\xE2\x88\x88%a \xCE\xBE=%a", "\xE2\x88\x80(a,b)\xE2\x88\x88%a a=b", "\xE2\x88\x80(a,b)\xE2\x88\x88%a a\xE2\x88\x88" "b",
   "\xE2\x88\x80" "a,b\xE2\x88\x88%a a=b", "D{\xCE\xBE\xE2\x88\x88%a | \xCE\xBE\xE2\x88\x88%a}", "{\xCE\xBE\xE2\x88\x88%a | \xCE\xBE=%a}", "D{(a,b)\xE2\x88\x88%a | a=b}",
   "R{\xCE\xBE:=%a | \xCE\xBE\xE2\x88\xAA%a}", "R{\xCE\xBE:=%a | \xCE\xBE=\xCE\xBE | \xCE\xBE\\%a}", "I{a | a:\xE2\x88\x88%a; a\xE2\x88\x88%a}", "I{(a,b) | a:\xE2\x88\x88%a; b:=%a}",
   "[\xCE\xB1\xE2\x88\x88%a] \xCE\xB1\xE2\x88\xAA%a", "[\xCE\xB1\xE2\x88\x88\xE2\x84\xAC(R1), \xCE\xB2\xE2\x88\x88%a] \xCE\xB1\\{\xCE\xB2}", "\xE2\x88\x80\xCE\xBE\xE2\x88\x88%a \xE2\x88\x80\xCE\xBE\xE2\x88\x88%a \xCE\xBE=\xCE\xBE", "\xE2\x88\x80\xCE\xBE\xE2\x88\x88%a \xCE\xB6=\xCE\xBE",
   "(\xE2\x88\x80\xCE\xBE\xE2\x88\x88%a \xCE\xBE=\xCE\xBE) & \xCE\xBE=%a", "[a\xE2\x88\x88" "D{b\xE2\x88\x88%a | b=b}, b\xE2\x88\x88%a] b", "[a\xE2\x88\x88%a, b\xE2\x88\x88\xE2\x84\xAC(a)] b",
-  "I{1 | a:\xE2\x88\x88%a}", "I{%a | a:\xE2\x88\x88%a; b:=a}", "R{\xCE\xBE:=%a | {\xCE\xBE}}", "R{\xCE\xBE:=%a | \xCE\xBE\xE2\x88\xAA{\xCE\xBE}}"};
+  "I{1 | a:\xE2\x88\x88%a}", "I{%a | a:\xE2\x88\x88%a; b:=a}", "R{\xCE\xBE:=%a | {\xCE\xBE}}", "R{\xCE\xBE:=%a | \xCE\xBE\xE2\x88\xAA{\xCE\xBE}}",
+  // recursion whose condition must be typed with the STABLE type of the variable; a bound name re-declared in a sibling scope with another type
+  "R{\xCE\xBE:=%a | \xCE\xBE=%a | \xCE\xBE\xE2\x88\xAA{%a}}", "R{\xCE\xBE:=%a | \xCE\xBE\xE2\x8A\x86%a | \xCE\xBE\xE2\x88\xAA%a}",
+  "\xE2\x88\x80" "a\xE2\x88\x88%a pr1(a)\xE2\x88\x88X1 & \xE2\x88\x80" "a\xE2\x88\x88%a pr1(a)\xE2\x88\x88X1", "\xE2\x88\x80" "a\xE2\x88\x88%a a\xE2\x88\x88X1 & \xE2\x88\x83" "a\xE2\x88\x88%a a\xE2\x8A\x86X1"};
 #else                // three atoms, two operators
 static const char* const TEMPLATES[] = {"%a%o%a%o%a"};
 #endif
